@@ -165,6 +165,12 @@ func run(repo, dir string, seed uint64, nprog, nvalues int, keep bool) int {
 	out := vl.NewOut(dir)
 	defer out.Close()
 	r := vl.NewRng(vl.NewRng(seed).U64())
+	// the classifier of known defects follows the template like the model does: once the element loop reads the
+	// other map with the comma-ok form, "missing key reads as zero" is no longer a defect to fold failures into
+	if _, commaOk := templateFacts(); commaOk {
+		allDefects.missingKey = false
+		out.Count("template.commaOk")
+	}
 
 	cfg := idlgen.DefaultConfig()
 	cfg.Services, cfg.Consts, cfg.Annotations = false, false, false
